@@ -115,7 +115,11 @@ func (w *c04Raw) problems() [][2]string {
 	return out
 }
 
-func c04Self(c *core.Ctx, idx int) {
+func c04Self(c *core.Ctx, idx int) { selfFkScenario(c, idx, "C04") }
+
+// selfFkScenario runs the self-referencing-store history for property prop: C04 judges references and back-references,
+// C06 additionally scans the whole file for the id after every committed delete.
+func selfFkScenario(c *core.Ctx, idx int, prop string) {
 	r := c.Rand()
 	nullable := idx%2 == 0
 	kind := schema.FkIndex
@@ -188,7 +192,7 @@ func c04Self(c *core.Ctx, idx int) {
 		if opErr != nil {
 			outcome = "error"
 			if after.Hash() != before.Hash() {
-				c.Violationf("C04 self-referencing store: an operation that returned an error changed the database ("+op+")", info, "diff: %v", dump.Diff(before, after, nil, 4))
+				c.Violationf(prop+" self-referencing store: an operation that returned an error changed the database ("+op+")", info, "diff: %v", dump.Diff(before, after, nil, 4))
 			}
 		}
 		shape := "other"
@@ -204,8 +208,25 @@ func c04Self(c *core.Ctx, idx int) {
 		}
 		c.Nontrivial("c04self", op, outcome, shape, nullable)
 		for _, p := range raw.problems() {
-			c.Violationf("C04 self-referencing store: "+p[0]+" after "+op+" ("+outcome+", "+shape+")", info, "%s", p[1])
+			c.Violationf(prop+" self-referencing store: "+p[0]+" after "+op+" ("+outcome+", "+shape+")", info, "%s", p[1])
 			break
+		}
+		if prop == "C06" && outcome == "ok" && (op == "delete-node" || op == "delete-pin") {
+			gone := id
+			if op == "delete-pin" {
+				gone = pin
+			}
+			existed := raw0.nodeParent[gone] != "" || raw0.nodeKids[gone] != nil
+			if op == "delete-pin" {
+				_, existed = raw0.pinNode[gone]
+			}
+			// ids are shared between nothing here: any occurrence of the id after its delete is a trace
+			if _, stillNode := raw.nodeParent[gone]; existed && !stillNode {
+				c.Count("self_fk_deletes_scanned", 1)
+				if hits := after.FindId(gone); len(hits) > 0 && len(gone) < 1000 {
+					c.Violationf("C06 self-referencing store: trace of deleted id after "+op+" ("+shape+"): "+traceClass(hits[0]), info, "id %q still occurs: %v", shortId(gone), hits)
+				}
+			}
 		}
 		c.Count("self_fk_states_checked", 1)
 	}
